@@ -32,6 +32,20 @@ def tree4(t):
     return ['O', repr(t)[:40], 0, []]
 
 
+def expand_count(t4, cap=300):
+    """number of plain trees a result with _ambig nodes stands for (capped) - keeps TLC's Expand away from explosions"""
+    if t4[0] != 'R':
+        return 1
+    if t4[1] == '_ambig':
+        return min(cap + 1, sum(expand_count(c, cap) for c in t4[3]))
+    n = 1
+    for c in t4[3]:
+        n *= expand_count(c, cap)
+        if n > cap:
+            return cap + 1
+    return n
+
+
 def observe_case(spec):
     import logging
     logging.disable(logging.CRITICAL)
@@ -73,6 +87,9 @@ def observe_case(spec):
                 pass
     for w in spec['inputs']:
         text = E.to_text(w)
+        if not case['cyclic'] and E.deriv_count(brules, list(w), cap=spec.get('deriv_cap', 80)) > spec.get('deriv_cap', 80):
+            case['too_ambiguous'] = case.get('too_ambiguous', 0) + 1
+            continue
         obs = []
         for name in parsers:
             try:
@@ -89,6 +106,9 @@ def observe_case(spec):
                 with O.budget(20):
                     t = explicit[name].parse(text)
                 rec = {'cfg': name, 'out': 0, 'tree': tree4(t), 'collrun': False, 'collok': True, 'coll': []}
+                if expand_count(rec['tree']) > 300:
+                    case['too_ambiguous'] = case.get('too_ambiguous', 0) + 1
+                    continue
                 if spec.get('collapse') and hasattr(t, 'children'):      # the utility is defined on trees (a ?start can return a token or None)
                     from lark.visitors import CollapseAmbiguities
                     rec['collrun'] = True
@@ -191,6 +211,7 @@ def run(pid, tier, seed, replay):
         cases = C.pmap(observe_case, specs(tier, rng, explicit=(pid == 'C04')))
         for c in cases:
             ev.count('skipped:' + c['skip'].split(':')[0] if c['skip'] else 'grammar_option_settings')
+            ev.count('inputs_skipped_more_than_80_derivations', c.get('too_ambiguous', 0))
         cases = [c for c in cases if not c['skip']]
         for c in cases:
             for i in c['inputs']:
